@@ -106,6 +106,10 @@ struct WorkerSummary {
     samples: Vec<serde_json::Value>,
     violation: Option<ViolationReport>,
     harness_error: Option<String>,
+    /// set by the master when the worker process was killed by a signal (e.g. SIGSEGV inside
+    /// native code of the system under test): (start, stride, count, signal)
+    #[serde(default)]
+    crashed: Option<(u64, u64, u64, i32)>,
 }
 
 pub struct Outcome {
@@ -309,6 +313,10 @@ fn worker_main(world: &dyn World, args: &Args) -> i32 {
         }
         let idx = start + k * stride;
         let seed = mix_seed(base, idx);
+        // self-test of the crash path of the runner
+        if std::env::var("SIMKIT_TEST_CRASH_IDX").ok().and_then(|v| parse_u64(&v)) == Some(idx) {
+            std::process::abort();
+        }
         let keep = (sum.samples.len() as u64) < nsamples;
         let out = execute(world, Tape::generate(seed), &prop, tier, keep, &known);
         if let Some(h) = out.harness_panic {
@@ -467,6 +475,7 @@ fn spawn_workers(
     let exe = std::env::current_exe().map_err(|e| e.to_string())?;
     let jobs = jobs.max(1).min(runs.max(1));
     let mut children = Vec::new();
+    let mut layout = Vec::new();
     for j in 0..jobs {
         // interleaved assignment: worker j runs idx j, j+jobs, j+2*jobs, ...
         let count = (runs + jobs - 1 - j) / jobs;
@@ -489,9 +498,10 @@ fn spawn_workers(
             c.args(["--samples", "3"]);
         }
         children.push(c.spawn().map_err(|e| format!("spawn worker: {e}"))?);
+        layout.push((j, jobs, count));
     }
     let mut out = Vec::new();
-    for ch in children {
+    for (ch, lay) in children.into_iter().zip(layout) {
         let o = ch.wait_with_output().map_err(|e| e.to_string())?;
         let so = String::from_utf8_lossy(&o.stdout);
         let line = so.lines().rev().find(|l| l.starts_with("SUMMARY "));
@@ -502,6 +512,14 @@ fn spawn_workers(
                 out.push(s);
             }
             None => {
+                use std::os::unix::process::ExitStatusExt;
+                if let Some(sig) = o.status.signal() {
+                    out.push(WorkerSummary {
+                        crashed: Some((lay.0, lay.1, lay.2, sig)),
+                        ..Default::default()
+                    });
+                    continue;
+                }
                 let se = String::from_utf8_lossy(&o.stderr);
                 let tail: String = se.lines().rev().take(15).collect::<Vec<_>>().join(" | ");
                 return Err(format!(
@@ -512,6 +530,25 @@ fn spawn_workers(
         }
     }
     Ok(out)
+}
+
+/// Runs exactly one run index in a child process; returns Some(signal) if the child was killed
+/// by a signal, Some(0) if it exited normally, None if it could not be started.
+fn run_single_child(prop: &str, tier: Tier, base: u64, idx: u64, known_path: &str) -> Option<i32> {
+    use std::os::unix::process::ExitStatusExt;
+    let exe = std::env::current_exe().ok()?;
+    let st = std::process::Command::new(exe)
+        .arg("worker")
+        .args(["--prop", prop, "--tier", tier.as_str()])
+        .args(["--base-seed", &base.to_string()])
+        .args(["--start", &idx.to_string(), "--stride", "1", "--count", "1"])
+        .args(["--known", known_path, "--no-minimise"])
+        .stdin(std::process::Stdio::null())
+        .stdout(std::process::Stdio::null())
+        .stderr(std::process::Stdio::null())
+        .status()
+        .ok()?;
+    Some(st.signal().unwrap_or(0))
 }
 
 fn run_main(world: &dyn World, args: &Args) -> i32 {
@@ -576,7 +613,12 @@ fn run_main(world: &dyn World, args: &Args) -> i32 {
     let mut total = WorkerSummary::default();
     let mut distinct = BTreeSet::new();
     let mut best: Option<ViolationReport> = None;
+    let mut crashes: Vec<(u64, u64, u64, i32)> = Vec::new();
     for s in sums {
+        if let Some(c) = s.crashed {
+            crashes.push(c);
+            continue;
+        }
         if let Some(e) = &s.harness_error {
             println!("HARNESS-ERROR {e}");
             return 2;
@@ -599,6 +641,51 @@ fn run_main(world: &dyn World, args: &Args) -> i32 {
         if let Some(v) = s.violation {
             if best.as_ref().map(|b| v.idx < b.idx).unwrap_or(true) {
                 best = Some(v);
+            }
+        }
+    }
+    // A worker killed by a signal: the system under test crashed the process (memory
+    // unsafety in native code). Find the run that does it, one run per child process.
+    for (start, stride, count, sig) in crashes {
+        let mut found = None;
+        for k in 0..count {
+            let idx = start + k * stride;
+            if best.as_ref().map(|b| b.idx < idx).unwrap_or(false) {
+                break;
+            }
+            if let Some(s2) = run_single_child(&prop, tier, base, idx, &known_path) {
+                if s2 == sig || s2 != 0 {
+                    found = Some((idx, s2));
+                    break;
+                }
+            }
+        }
+        match found {
+            Some((idx, s2)) => {
+                let v = ViolationReport {
+                    idx,
+                    seed: mix_seed(base, idx),
+                    violation: Violation {
+                        property: prop.clone(),
+                        class: format!("crash:signal-{s2}"),
+                        detail: format!(
+                            "the process running this history was killed by signal {s2} (crash inside the system under test); re-run the seed to reproduce"
+                        ),
+                    },
+                    tape: vec![],
+                    orig_tape_len: 0,
+                    min_execs: 0,
+                    log: vec![],
+                };
+                if best.as_ref().map(|b| v.idx < b.idx).unwrap_or(true) {
+                    best = Some(v);
+                }
+            }
+            None => {
+                println!(
+                    "HARNESS-ERROR a worker was killed by signal {sig} but no single run of its share reproduces it"
+                );
+                return 2;
             }
         }
     }
@@ -737,6 +824,23 @@ fn replay_main(world: &dyn World, args: &Args) -> i32 {
     if rf.world != world.name() {
         eprintln!("replay file is for world {}, this is {}", rf.world, world.name());
         return 2;
+    }
+    if rf.violation.class.starts_with("crash:") {
+        // the violation is a crash of the whole process: reproduce it in a child
+        let known = args.get("known").unwrap_or("/verif/known-findings.txt").to_string();
+        return match run_single_child(&rf.property, tier_of(&rf.tier), rf.base_seed, rf.run_idx, &known) {
+            Some(sig) if sig != 0 => {
+                if !quiet {
+                    println!("reproduced: the run was killed by signal {sig}");
+                }
+                println!("VIOLATION property={} replay={file}", rf.property);
+                1
+            }
+            _ => {
+                println!("replay did not crash (recorded class {})", rf.violation.class);
+                0
+            }
+        };
     }
     if !quiet {
         PANIC_VERBOSE.store(true, std::sync::atomic::Ordering::Relaxed);
